@@ -2,7 +2,7 @@ use crate::{
     LuaFeatures, SpecialFunction,
     grammar::{ParseFailReason, ParseResult, lua::is_statement_start_token},
     kind::{BinaryOperator, LuaOpKind, LuaSyntaxKind, LuaTokenKind, UNARY_PRIORITY, UnaryOperator},
-    parser::{LuaParser, MarkerEventContainer},
+    parser::{LuaParser, Marker, MarkerEventContainer},
     parser_error::LuaParseError,
 };
 
@@ -177,6 +177,18 @@ pub fn parse_closure_expr(p: &mut LuaParser) -> ParseResult {
 
     if_token_bump(p, LuaTokenKind::TkFunction);
 
+    parse_closure_body(p, m)
+}
+
+/// The part of a function after its name: `(params) block end`. Function statements have already
+/// consumed `function` and the name, so a second `function` keyword here is not skipped.
+pub fn parse_func_body(p: &mut LuaParser) -> ParseResult {
+    let m = p.mark(LuaSyntaxKind::ClosureExpr);
+
+    parse_closure_body(p, m)
+}
+
+fn parse_closure_body(p: &mut LuaParser, m: Marker) -> ParseResult {
     parse_param_list(p, LuaTokenKind::TkLeftParen, LuaTokenKind::TkRightParen)?;
 
     if p.current_token() != LuaTokenKind::TkEnd {
